@@ -485,6 +485,33 @@ theorem kth_body_independent_of_prefix (d : Dec I) (pre post : List (Option Str 
 example : readSeqFrom toy .none [(some (lit "gzip"), [[0x1f, 0x8b, 1, 65, 0]]), (none, [[104, 105]])]
     = [.ok [65], .ok [104, 105]] := by decide
 
+/-- **The web layer never requests raw mode**, whatever timeout is configured. -/
+theorem web_never_raw (keepFile : Bool) (timeout : Option Nat) :
+    (webDownloadArgs keepFile timeout).raw = false := rfl
+
+/-- Fetching through `WebSession.download` with a file decodes exactly as the
+Stream does, for every configured timeout: all stream-level theorems above
+(split invariance, truncated / corrupt ⇒ ProtocolError) apply to the crawler's fetch. -/
+theorem web_download_decodes (timeout : Option Nat) (enc : Option Str) (ps : List Bytes) :
+    webDownload I true timeout enc ps = readBody I (codingOf (enc.getD [])) ps := by
+  simp [webDownload, sessionDownload, sessionDownloadOutcome, webDownloadArgs, Outcome.observed,
+    readBody, setupDecompressor]
+
+/-- … and with the body discarded the exception is the same. -/
+theorem web_download_verdict (keepFile : Bool) (timeout : Option Nat) (enc : Option Str)
+    (ps : List Bytes) (e : PyExc) :
+    webDownload I keepFile timeout enc ps = .error e ↔
+      readBody I (codingOf (enc.getD [])) ps = .error e := by
+  cases keepFile
+  · exact discarded_body_same_verdict I (codingOf (enc.getD [])) ps e
+  · rw [web_download_decodes]
+
+/-- a truncated gzip body fetched with a session timeout of 5 s (the input of seeded change C19-7) -/
+example : webDownload toy true (some 5000) (some (lit "gzip")) [[0x1f, 0x8b], [1, 65]] = .error .ProtocolError := by decide
+example : webDownload toy true (some 5000) (some (lit "gzip")) [[0x1f, 0x8b], [1, 65, 0]] = .ok [65] := by decide
+/-- what raw mode would do instead (not reachable from the web layer) -/
+example : sessionDownload toy ⟨true, true, true, none⟩ (some (lit "gzip")) [[0x1f, 0x8b], [1, 65]] = .ok [0x1f, 0x8b, 1, 65] := by decide
+
 /-! ### non-vacuity: the hypothesis is satisfiable and the conclusions are not trivial -/
 
 /-- gzip stream "AB" in three pieces, the first one a single byte -/
